@@ -30,6 +30,15 @@ func NewDiscoveryStrategy(discovery ports.DiscoveryService, options config.Model
 	}
 }
 
+// rejectionReason distinguishes "nobody lists this model" (not found, 404) from "only endpoints
+// that are currently not healthy list it" (unavailable, 503)
+func rejectionReason(modelEndpoints []string, unavailableReason string) string {
+	if len(modelEndpoints) == 0 {
+		return constants.RoutingReasonModelNotFound
+	}
+	return unavailableReason
+}
+
 // Name returns the strategy name
 func (s *DiscoveryStrategy) Name() string {
 	return StrategyDiscovery
@@ -76,7 +85,7 @@ func (s *DiscoveryStrategy) GetRoutableEndpoints(
 		return nil, ports.NewRoutingDecision(
 				s.Name(),
 				ports.RoutingActionRejected,
-				constants.RoutingReasonModelUnavailableNoRefresh,
+				rejectionReason(modelEndpoints, constants.RoutingReasonModelUnavailableNoRefresh),
 			), domain.NewModelRoutingError(
 				modelName,
 				s.Name(),
@@ -200,7 +209,7 @@ func (s *DiscoveryStrategy) GetRoutableEndpoints(
 		return nil, ports.NewRoutingDecision(
 				s.Name(),
 				ports.RoutingActionRejected,
-				constants.RoutingReasonModelUnavailableAfterDiscovery,
+				rejectionReason(modelEndpoints, constants.RoutingReasonModelUnavailableAfterDiscovery),
 			), domain.NewModelRoutingError(
 				modelName,
 				s.Name(),
